@@ -481,6 +481,27 @@ NOT_YET = "check not built yet in this round; see DESIGN.md §8"
 NOT_APPLICABLE = {}
 
 
+# ---- fact F7 and the alias engine (stored byte slices are never rewritten in place) ----------------------------------------------------------
+_F7 = (" Fact F7, regenerated from the Go source on every run (harness/sites_alias.go -> Generated/AliasSites.lean -> Props/C01Alias.lean): the executors hand "
+       "stored byte slices to their replies and the connection encodes a reply after the key's lock is released, which is sound only while no stored slice is "
+       "rewritten in place. AliasSites.no_inplace_write_to_stored / inventory - every in-place write to a byte slice in memdb (index assignment, copy, append, "
+       "strconv.Append*) targets a slice allocated in the function, except a reviewed list (APPEND's append, which writes only beyond the old length: "
+       "append_in_place_keeps_shorter_views); AliasSites.installed_values_own_their_bytes / install_inventory - every byte slice handed to the keyspace is a fresh "
+       "allocation, one of the command's arguments or a reviewed move. A new site fails the build (proof-broken) and aims the input search: ")
+_ALIAS = ("Engine alias (harness/alias.go, vlib/aliassuite.py; quick tier): for every reading command of the family x every writing command x every way the value "
+          "was created, the reply OBJECT returned by server.Manager.ExecCommand is kept unencoded, the write runs on the same key (strings: also on a neighbouring "
+          "key created the same way), then the reply is encoded - it must equal the encoding taken at once in a control run (sequential, deterministic test of the "
+          "aliasing hazard; a changed reply is reported with its scenario).")
+for _p in ("C01", "C10", "C03"):
+    CHECKS[_p]["text"] += _F7 + ("the alias probes of the family whose file holds the site (C03: of every such family) and the concurrent scenario counters. " if _p != "C10" else
+                                 "the alias probes and the concurrent scenario counters. ") + (_ALIAS if _p != "C03" else "")
+    CHECKS[_p]["engine"] += " + alias" + (" (when F7 is broken)" if _p == "C03" else "")
+    CHECKS[_p]["note"] += " Fact F7: the extractor harness/sites_alias.go and the hand-written justifications of the reviewed entries are trusted."
+for _p in ("C09", "C11", "C12", "C18"):
+    CHECKS[_p]["text"] += " " + _ALIAS
+    CHECKS[_p]["engine"] += " + alias"
+
+
 def main():
     props = [json.loads(l)["id"] for l in open(os.path.join(core.VERIF, "properties.jsonl"))]
     checks = []
